@@ -239,6 +239,14 @@ def build(ctx):
     sig, body = extract.body_of(t)
     out.append("_Bool g_str_eq[3]; int g_str_eq_mask;\nstatic _Bool ext_str_eq(int which, const struct Str *a, const struct Str *b) { g_str_eq_mask |= (1 << which); return g_str_eq[which]; }\n")
     out.append(member_undefs + "%s %s\n" % (_common.add_self(sig, "const struct Suppression *self", "isSameParameters"), body) + member_defs)
+    # call sites of isSameParameters: addSuppression and updateSuppressionState must find duplicates with exactly this predicate
+    # (the predicate itself is under contract above; a different predicate at the call site is outside it -> extraction stops, exit 2)
+    for fn in (r'^std::string SuppressionList::addSuppression\s*\(\s*SuppressionList::Suppression\s+suppression', r'^bool SuppressionList::updateSuppressionState\s*\('):
+        cs = extract.locate_function("lib/suppressions.cpp", fn)
+        if not re.search(r'std::find_if\(\s*mSuppressions\.begin\(\)\s*,\s*mSuppressions\.end\(\)\s*,\s*std::bind\(\s*&Suppression::isSameParameters\s*,\s*&suppression\s*,\s*std::placeholders::_1\s*\)\s*\)',
+                         extract.strip_comments(cs.text)):
+            raise extract.ExtractError("%s: the duplicate lookup no longer uses Suppression::isSameParameters (the contract on isSameParameters does not cover the new predicate)" % cs.where())
+        kb.add_located("duplicate lookup call site (must use isSameParameters)", cs, "call-site")
     # isSuppressed
     li = extract.locate_function("lib/suppressions.cpp", r'^SuppressionList::Suppression::Result SuppressionList::Suppression::isSuppressed\s*\(')
     kb.add_located("Suppression::isSuppressed", li)
